@@ -62,7 +62,7 @@ def generate(tape, tier="quick"):
     ma = MGrid(a)
     shape = ma.data_shape()
     pm = tape.weighted([("fixed", 5), ("FLEX", 2), ("NONE", 2)])
-    cm = tape.weighted([("fixed_equal", 4), ("fixed_diff", 3), ("FLEX", 2), ("NONE", 2)])
+    cm = tape.weighted([("fixed_equal", 4), ("fixed_diff", 3), ("FLEX", 2), ("NONE", 2), ("same_object", 2)])
     pbits = gen_mask(tape, shape, "partial")
     return {"engine": "A", "a": a, "b": b, "cgrid": cg, "pmask": pm, "cmask": cm, "pbits": pbits,
             "flip": tape.draw(max(1, len(pbits)))}
@@ -159,12 +159,22 @@ def run_accept(sc):
     cdiff = cbits.copy()
     flat = cdiff.reshape(-1)
     flat[sc["flip"] % flat.size] = not flat[sc["flip"] % flat.size]
-    cmask = {"FLEX": Mask.FLEX, "NONE": Mask.NONE, "fixed_equal": cbits, "fixed_diff": cdiff}[sc["cmask"]]
+    if sc["cmask"] == "same_object":
+        # the very same array object on both ends (e.g. one module-level mask reused for two grids): it only
+        # describes the same cells if the consumer's layout maps it onto itself
+        if sc["pmask"] != "fixed" or mb.data_shape() != shape:
+            sc = dict(sc, cmask="fixed_equal")
+        else:
+            cbits_same = pbits
+    cmask = {"FLEX": Mask.FLEX, "NONE": Mask.NONE, "fixed_equal": cbits, "fixed_diff": cdiff,
+             "same_object": pbits}[sc["cmask"]]
     # expected outcome from the documented rules
     if sc["cmask"] == "FLEX":
         want = True
     elif sc["cmask"] == "NONE":
         want = sc["pmask"] == "NONE"
+    elif sc["cmask"] == "same_object":
+        want = bool(np.array_equal(pbits, cbits))
     else:
         want = sc["pmask"] == "fixed" and sc["cmask"] == "fixed_equal"
     out = Output(name="src", info=Info(time=dt(0), grid=ga, units="m", mask=pmask))
